@@ -40,5 +40,18 @@ UNITS = [
 ]
 TRUSTED = ["cbmc 6.11.0 / goto-instrument DFCC / CaDiCaL", "goto-cc C++ front end; String.hpp member subset (compat rules R2-R4)",
            "assumed contracts of Memory::copy/move/compare (libc)", "dep/nstd/Atomic.hpp: sequentially atomic increment/decrement"]
-ASSUMPTIONS = []
-EXPLANATION = ""
+ASSUMPTIONS = [
+    "all lengths / capacities <= 0x7ffffff0 (goto-cc truncates new[] counts to 32 bits)",
+    "String::emptyData is in its constructed state (ref 0, len 0) -- DFCC havocs statics; no String member may write a payload with ref == 0 (frames)",
+    "histories = induction over operations on (a, b): a is the operand, b a second handle that shares a's block whenever the count exceeds 1, "
+    "so every illegal in-place write is visible through b; further handles are a symbolic count",
+    "str[len] == 0 is NOT a representation invariant of String (resize on an empty string leaves the end unterminated; the const char* conversion "
+    "repairs lazily): the terminator is proved as postcondition of operator const char*() const",
+    "covered members: constructors (default, copy, buffer, capacity), destructor, operator=, clear, attach, resize, reserve, append x3, prepend x2, "
+    "operator const char*() const, ==, !=.  NOT covered: compare/find/replace/case mapping/trim/substr/token/split/join (loops / libc calls), "
+    "printf/scanf family (variadic libc), toBool/fromBool and the char(&)[N] templates (deleted by compat rule R2)",
+    "Atomic::increment/decrement sequentially atomic (seam); thread interleavings of C09 not decided",
+]
+EXPLANATION = ("Every covered String member is verified against a contract: representation invariant, value == reference byte string "
+               "(ghost index + watched byte through the Memory::copy contract), every other handle unaffected, old heap block "
+               "released exactly when the last handle leaves (was_freed), frame excludes literals / attached memory / shared blocks.")
